@@ -96,6 +96,12 @@ mod pathset;
 pub(crate) mod reliability;
 /// Path fetcher traits and types.
 pub mod traits;
+/// Verification hooks: step-wise access to one path set (feature `verif-hooks`, off by default).
+#[cfg(feature = "verif-hooks")]
+pub mod verif_hooks;
+/// Verification trace hooks at the synchronisation points (feature `verif-hooks`, off by default).
+#[cfg(feature = "verif-hooks")]
+pub mod verif_trace;
 
 /// Configuration for the `MultiPathManager`.
 #[derive(Debug, Clone, Copy)]
@@ -282,6 +288,8 @@ impl<F: PathFetcher> MultiPathManager<F> {
                 handle.try_active_path().as_deref().map(|p| p.0.clone())
             })
             .flatten();
+        #[cfg(feature = "verif-hooks")]
+        verif_trace::ev0(verif_trace::Kind::PeekCached, u64::from(try_path.is_some()));
 
         match try_path {
             Some(active) => {
@@ -339,22 +347,32 @@ impl<F: PathFetcher> MultiPathManager<F> {
                 handle.try_active_path().as_deref().map(|p| p.0.clone())
             })
             .flatten();
+        #[cfg(feature = "verif-hooks")]
+        verif_trace::ev0(verif_trace::Kind::PeekPath, u64::from(try_path.is_some()));
 
         let res = match try_path {
             Some(active) => Ok(active),
             None => {
+                #[cfg(feature = "verif-hooks")]
+                verif_trace::pause(1).await;
                 // Ensure paths are being managed
                 let path_set = self.ensure_managed_paths(src, dst);
 
                 // Try to get active path, possibly waiting for initialization/update
                 let active = path_set.active_path().await.as_ref().map(|p| p.0.clone());
+                #[cfg(feature = "verif-hooks")]
+                verif_trace::ev(verif_trace::Kind::Load2, &path_set.shared, u64::from(active.is_some()));
 
                 // Check active path after waiting
                 match active {
                     Some(active) => Ok(active),
                     None => {
                         // No active path even after waiting, return last error if any
+                        #[cfg(feature = "verif-hooks")]
+                        verif_trace::pause(4).await;
                         let last_error = path_set.current_error();
+                        #[cfg(feature = "verif-hooks")]
+                        verif_trace::ev(verif_trace::Kind::Err, &path_set.shared, verif_trace::err_class(last_error.as_ref()));
                         match last_error {
                             Some(e) => Err(e),
                             None => {
@@ -400,8 +418,12 @@ impl<F: PathFetcher> MultiPathManager<F> {
     /// Does nothing if paths are already being managed.
     fn fast_ensure_managed_paths(&self, src: IsdAsn, dst: IsdAsn) {
         if self.0.managed_paths.contains(&(src, dst)) {
+            #[cfg(feature = "verif-hooks")]
+            verif_trace::ev0(verif_trace::Kind::Contains, 1);
             return;
         }
+        #[cfg(feature = "verif-hooks")]
+        verif_trace::ev0(verif_trace::Kind::Contains, 0);
 
         self.ensure_managed_paths(src, dst);
     }
@@ -417,6 +439,8 @@ impl<F: PathFetcher> MultiPathManager<F> {
             }
             scc::hash_index::Entry::Vacant(vacant) => {
                 tracing::info!(%src, %dst, "Starting to manage paths for src-dst pair");
+                #[cfg(feature = "verif-hooks")]
+                verif_trace::vacant();
                 let managed = PathSet::new(
                     src,
                     dst,
@@ -432,6 +456,8 @@ impl<F: PathFetcher> MultiPathManager<F> {
                 vacant.insert_entry(managed.manage())
             }
         };
+        #[cfg(feature = "verif-hooks")]
+        verif_trace::ensure(&entry.get().0.shared);
 
         entry.get().0.clone()
     }
@@ -439,6 +465,8 @@ impl<F: PathFetcher> MultiPathManager<F> {
     /// Stops managing paths for the given src-dst pair.
     pub fn stop_managing_paths(&self, src: IsdAsn, dst: IsdAsn) {
         if self.0.managed_paths.remove_sync(&(src, dst)) {
+            #[cfg(feature = "verif-hooks")]
+            verif_trace::removed();
             tracing::info!(%src, %dst, "Stopped managing paths for src-dst pair");
         }
     }
